@@ -25,6 +25,13 @@
 //      "end accepted=[..]/[..] delivered=[t:v ..]/[..]"   (per source)
 //   stressn <messages> <mode 0 blocking|1 try+retry|2 mixed> <cap0> <cap1> [<cap2>]
 //      the REAL executor loop on its own thread, one real producer thread per source (monitor-only)
+//   tryonly <producers> <sends> <policy q|b> <poller 0|1>
+//      the REAL executor loop; ONE source that can never be full (queue: unbounded; burst: capacity
+//      1000000); every producer thread calls plain try_send <sends> times WITHOUT retry and counts
+//      accepted / refused; optionally a thread polling inspection_metrics().pending_items all the
+//      time (nobody else reads the metrics); no stop is requested before every producer is done.
+//      -> "tryonly policy=.. producers=.. poller=.. sends=a/b accepted=a/b refused=a/b delivered=n
+//          stop_before_done=0 timeout=0"   (monitor-only)
 #include "hgv_common.h"
 
 #include <hgraph/lib/testing/runtime_support.h>
@@ -586,6 +593,112 @@ namespace
                (run_error.empty() ? "" : " run_error=" + run_error);
     }
 
+    std::string run_tryonly(int producers, int sends, char policy, bool poller)
+    {
+        const auto *ts_int   = ts_type<TS<Int>>();
+        const auto *ts_tuple = ts_type<TS<HomogeneousTuple<Int>>>();
+        const TSValueTypeMetaData *out_ts = policy == 'b' ? ts_tuple : ts_int;
+        const auto *input_schema = hgraph::testing::single_input_schema(*out_ts);
+        std::atomic<std::int64_t> delivered{0};
+        std::atomic<bool>         have_sender{false};
+        PushSourceSender          sender;
+
+        NodeTypeMetaData schema;
+        schema.display_name = "hgv_pushn_tryonly_sink";
+        schema.input_schema = input_schema;
+        schema.node_kind    = NodeKind::Sink;
+        NodeCallbacks callbacks;
+        callbacks.evaluate = [&delivered, policy](const NodeView &view, DateTime evaluation_time) {
+            auto root   = view.input(evaluation_time);
+            auto bundle = root.as_bundle();
+            if (policy == 'b') { delivered += static_cast<std::int64_t>(bundle[0].value().as_list().size()); }
+            else { (void)bundle[0].value().checked_as<Int>(); ++delivered; }
+        };
+        GraphBuilder gb;
+        PushSourcePolicy pol = policy == 'b' ? make_push_source_burst_policy(*ts_tuple, 1000000)
+                                             : make_push_source_queue_policy(*ts_int, 0);
+        gb.add_node(make_push_source_node(*out_ts, pol, [&](PushSourceSender s) {
+            sender = std::move(s);
+            have_sender.store(true, std::memory_order_release);
+        }));
+        gb.add_node(NodeBuilder::native(std::move(schema), std::move(callbacks),
+                                        hgraph::testing::single_input_endpoint(*input_schema, *out_ts)));
+        gb.add_edge(GraphEdge{.source_node = make_graph_edge_source(0), .source_path = {}, .target_node = 1, .target_path = {0}});
+
+        const DateTime start = hgraph::testing::wall_now();
+        GraphExecutorBuilder eb;
+        eb.graph_builder(std::move(gb)).mode(GraphExecutorMode::RealTime).start_time(start).end_time(start + TimeDelta{300'000'000});
+        GraphExecutorValue executor = eb.make_executor();
+        GraphExecutorView  view     = executor.view();
+        std::string        run_error;
+        std::thread        runner([&] {
+            try { view.run(); }
+            catch (const std::exception &e) { run_error = e.what(); }
+        });
+        const auto t0 = std::chrono::steady_clock::now();
+        while (!have_sender.load(std::memory_order_acquire) && std::chrono::steady_clock::now() - t0 < std::chrono::seconds{60})
+        {
+            std::this_thread::sleep_for(std::chrono::microseconds{100});
+        }
+        std::vector<std::int64_t> accepted(static_cast<std::size_t>(producers), 0), refused(static_cast<std::size_t>(producers), 0);
+        std::atomic<int>          go{0};
+        std::atomic<bool>         producers_done{false}, stop_before_done{false};
+        std::vector<std::thread>  threads;
+        std::thread               poll;
+        if (have_sender.load())
+        {
+            for (int p = 0; p < producers; ++p)
+            {
+                threads.emplace_back([&, p] {
+                    PushSourceSender mine = sender;
+                    ++go;
+                    while (go.load() < producers) { std::this_thread::yield(); }     // start together
+                    for (int n = 0; n < sends; ++n)
+                    {
+                        if (mine.try_send(Int{static_cast<std::int64_t>(p) * 1'000'000 + n})) { ++accepted[static_cast<std::size_t>(p)]; }
+                        else { ++refused[static_cast<std::size_t>(p)]; }
+                    }
+                });
+            }
+            if (poller)
+            {
+                poll = std::thread([&] {
+                    std::size_t sink = 0;
+                    while (!producers_done.load(std::memory_order_acquire))
+                    {
+                        sink += view.graph().node_at(0).inspection_metrics().pending_items.value_or(0);
+                    }
+                    (void)sink;
+                });
+            }
+        }
+        for (auto &th : threads) { th.join(); }
+        stop_before_done = view.stop_requested();
+        producers_done.store(true, std::memory_order_release);
+        if (poll.joinable()) { poll.join(); }
+        std::int64_t total_accepted = 0;
+        for (auto a : accepted) { total_accepted += a; }
+        bool timeout = false;
+        const auto t1 = std::chrono::steady_clock::now();
+        while (delivered.load() < total_accepted)
+        {
+            if (std::chrono::steady_clock::now() - t1 > std::chrono::seconds{20}) { timeout = true; break; }
+            std::this_thread::sleep_for(std::chrono::microseconds{200});
+        }
+        view.request_stop();
+        runner.join();
+        auto join = [](const std::vector<std::int64_t> &v) {
+            std::string s;
+            for (std::size_t i = 0; i < v.size(); ++i) { s += (i ? "/" : "") + std::to_string(v[i]); }
+            return s;
+        };
+        std::vector<std::int64_t> sent(static_cast<std::size_t>(producers), have_sender.load() ? sends : 0);
+        return std::string("tryonly policy=") + policy + " producers=" + std::to_string(producers) + " poller=" + (poller ? "1" : "0") +
+               " sends=" + join(sent) + " accepted=" + join(accepted) + " refused=" + join(refused) +
+               " delivered=" + std::to_string(delivered.load()) + " stop_before_done=" + (stop_before_done.load() ? "1" : "0") +
+               " timeout=" + (timeout ? "1" : "0") + (run_error.empty() ? "" : " run_error=" + run_error);
+    }
+
     bool valid_step(const std::string &s, const std::vector<SourceCfg> &cfg)
     {
         const std::size_t k = cfg.size();
@@ -637,6 +750,11 @@ int main()
                 std::vector<std::size_t> caps;
                 for (std::size_t i = 3; i < w.size(); ++i) { caps.push_back(static_cast<std::size_t>(to_i(w[i]))); }
                 std::cout << run_stress(static_cast<int>(to_i(w[1])), static_cast<int>(to_i(w[2])), caps) << "\n";
+            }
+            else if (w[0] == "tryonly" && w.size() == 5 && digits(w[1]) && digits(w[2]) && (w[3] == "q" || w[3] == "b") &&
+                     (w[4] == "0" || w[4] == "1") && to_i(w[1]) >= 1 && to_i(w[1]) <= 8 && to_i(w[2]) <= 1000000)
+            {
+                std::cout << run_tryonly(static_cast<int>(to_i(w[1])), static_cast<int>(to_i(w[2])), w[3][0], w[4] == "1") << "\n";
             }
             else if (w[0] == "sched")
             {
